@@ -286,7 +286,7 @@ def _grid_seq(tier, rng):
     for pat in range(6):
         for T in (-50.0, 100.0, 150.0, 400.0, 1000.0, 5000.0):
             for k in range(3 if tier == "quick" else 12):
-                d = {"pattern": pat, "n": 1.1e-3, "T": T, "d0": 100.0, "d1": 400.0 + 50 * k, "dur0": 250.0, "dur1": 300.0}
+                d = {"pattern": pat, "n": 1.1e-3, "T": T, "d0": 100.0, "d1": 400.0 + 50 * k, "dur0": 250.0, "dur1": 300.0, "pos0": (k + pat) % 3, "pos1": (k + 2 * pat + 1) % 3}
                 for i in range(6):
                     d[f"x{i}"] = rng.uniform(-100, 100) * (1 if i < 3 else 0.01)
                 for i in range(3):
@@ -331,7 +331,10 @@ def _(c):
         else:
             dur = c.real(f"dur{k}", lo=0)
             acc = c.vec(f"acc{k}", 3)
-            mans.append(ContinuousMan(mkdate(d), mkdur(dur), accel=acc))
+            # the same burn interval [d, d + dur) described by its start, its middle or its end
+            pos = c.choice(f"pos{k}", ["start", "median", "stop"])
+            given = {"start": d, "median": d + dur / 2, "stop": d + dur}[pos]
+            mans.append(ContinuousMan(mkdate(given), mkdur(dur), accel=acc, date_pos=pos))
             spec.append(("C", d, dur, acc))
             prev = d + dur
     if c.symbolic:
